@@ -541,8 +541,10 @@ def r4_retry(program, rep):
             ("const", 0), ("binop", "Add", plain(CNT), ("const", 1))])) or \
             sorted(map(repr, alts)) == sorted(map(repr, [
                 ("const", 0), ("binop", "Add", ("const", 1), plain(CNT))]))
+        # (the edge of the loop test that enters the body: of either
+        # polarity - ``while not done`` enters on a false operand)
         body_in = [n_ for n_ in T.cfg.nodes if n_.kind == "assume" and
-                   n_.polarity and _inside(n_.ast, w) and
+                   _inside(n_.ast, w) and
                    T.cfg.dominates(n_, ffn) and
                    not any(_inside(n_.ast, st_) for st_ in w.body)]
         okc = okc and len(upd) == 1 and bool(body_in) and T.cfg.must_pass(
